@@ -1,8 +1,8 @@
 /-
   Property C06 — sparse matrix views / CSC well-formedness (model: Ohsl/Model/Sparse.lean).
   Proved here, class (S): the stable sort by column that `from_triplets` relies on is a sorted
-  permutation that keeps the original order inside a column (so the triplet ORDER only matters for
-  duplicates); out-of-range triplets and out-of-range `get`/`insert` positions are rejected.
+  permutation (`sortByCol_perm`, `sortByCol_sorted`; that it keeps the original order inside a column,
+  so that the triplet ORDER only matters for duplicates, is `Lemmas/SparseWF.sortByCol_eq_buckets`); out-of-range triplets and out-of-range `get`/`insert` positions are rejected.
 -/
 import Ohsl.Model.Sparse
 import Mathlib.Data.List.Perm.Basic
